@@ -88,7 +88,7 @@ claim("C09", "E3", "model_checking",
       "scripts are fixed packet lists; more than three simultaneous sessions are not explored", "3/C09")
 claim("C15", "E2", "model_checking",
       "stateless deviation-bounded exploration of goroutine interleavings of the instrumented real code under a controlled scheduler, with a per-schedule happens-before race oracle (Go race detector blinded to the scheduler)",
-      "Seventeen harnesses (concurrent connections on shared policy data, accept loop with opening/closing/refused connections, lookups concurrent with reloads, a consumer of a published configuration concurrent with the next load, the loader's update loop polling the real file-loader object while the next document is loaded, multiplexed sessions, cancellation during serving, cancellation racing the next requests of an idle connection with a pending session, two concurrent logins of one user with different passwords, a multi-scope user whose rule slices have spare capacity, a reload introducing new command patterns during a command authorization) run the real sync/goroutine/channel code on a cooperative scheduler; "
+      "Nineteen harnesses (concurrent connections on shared policy data, accept loop with opening/closing/refused connections, lookups concurrent with reloads, a consumer of a published configuration concurrent with the next load, the loader's update loop polling the real file-loader object while the next document is loaded, multiplexed sessions, cancellation during serving, cancellation racing the next requests of an idle connection with a pending session, two concurrent logins of one user with different passwords, a multi-scope user whose rule slices have spare capacity, a reload introducing new command patterns during a command authorization) run the real sync/goroutine/channel code on a cooperative scheduler; "
       "every schedule with at most 1 (quick) / 2 (thorough) deviations is executed under -race. A race report, a lookup that observes a mixture of two configurations, a published configuration that changes, a deadlock or a wrong reply is a violation.",
       "schedules with more deviations than the bound and code not reached by the harnesses are not covered; ThreadSanitizer treats the prometheus atomics as synchronisation, so statement-level points are inserted where handlers touch shared policy data (types.go TrimSpace, stringy evaluate, loader.updates)", "3/C15")
 claim("C17", "E2", "model_checking",
